@@ -82,6 +82,9 @@ pub struct Case {
     pub natives: bool,
     #[serde(default)]
     pub stack_mb: Option<usize>,
+    /// keep the events recorded while the interpreter was being created (heap pacing starts from an empty heap)
+    #[serde(default)]
+    pub boot_events: bool,
 }
 
 fn local_print(vm: &mut Vm, num_args: usize) -> Result<Value, Error> {
@@ -191,7 +194,7 @@ fn run_case_inner(case: &Case) -> J {
     }
     let alloc_base = verif::alloc_index();
     // what the interpreter did while it was being created (compiling and running core.yl) is not part of the case
-    let _ = verif::take_events();
+    let boot = verif::take_events();
 
     let mut runs = Vec::new();
     for snip in snippets.iter() {
@@ -233,7 +236,9 @@ fn run_case_inner(case: &Case) -> J {
             "by_type": st.by_type});
     }
     if case.events != 0 {
-        let evs: Vec<J> = verif::take_events()
+        let mut all = if case.boot_events { boot } else { Vec::new() };
+        all.extend(verif::take_events());
+        let evs: Vec<J> = all
             .into_iter()
             .map(|s| serde_json::from_str(&s).unwrap_or(J::String(s)))
             .collect();
